@@ -4,6 +4,7 @@ package rt
 
 import (
 	"sync/atomic"
+	"time"
 
 	"go.uber.org/cff/scheduler"
 )
@@ -13,6 +14,8 @@ import (
 const HooksOn = true
 
 var (
+	hookPerturb atomic.Bool  // delay some workers between finishing a job and posting its result
+	hookTick    atomic.Uint64
 	hookSeen    atomic.Int64 // results the Scheduler Loop has received
 	hookSettled atomic.Int64 // value of hookSeen when the loop last went on (next iteration or exit)
 )
@@ -26,9 +29,19 @@ func InstallHooks() {
 			hookSeen.Add(1)
 		case scheduler.VerifLoopTop, scheduler.VerifLoopExit:
 			hookSettled.Store(hookSeen.Load())
+		case scheduler.VerifWorkerPost:
+			// schedule perturbation: now and then a worker is slow to post its
+			// result, which widens the windows in which other workers pick up
+			// jobs and the loop handles other results first (timing only)
+			if hookPerturb.Load() && hookTick.Add(1)%3 == 0 {
+				time.Sleep(40 * time.Microsecond)
+			}
 		}
 	})
 }
+
+// SetPerturb switches the schedule perturbation of the hook on or off.
+func SetPerturb(on bool) { hookPerturb.Store(on) }
 
 // HookSeen returns the number of results received so far.
 func HookSeen() int64 { return hookSeen.Load() }
